@@ -21,6 +21,17 @@ E2E_ASSUME = [
 ]
 
 CHECKS = {
+    "C01": {
+        "module": "Vanguard.Props.C01", "namespace": "Vanguard.C01", "streams": ["e2e"],
+        "partial": "per-message transformation is proved for every world satisfying the codec/compressor laws; whole-stream fidelity "
+                   "is checked against ground truth on fake codecs (raw/hexa/rev) and RLE compressors, not on real proto/json/gzip",
+        "assumptions": E2E_ASSUME + ["WorldLaws (decode∘encode = id, decompress∘compress = id, compressed output non-empty) are hypotheses"],
+    },
+    "C05": {
+        "module": "Vanguard.Props.C05", "namespace": "Vanguard.C05", "streams": ["e2e"],
+        "partial": "request direction proved; response headers and trailer relocation are checked by correspondence and ground-truth oracle",
+        "assumptions": E2E_ASSUME,
+    },
     "C03": {
         "module": "Vanguard.Props.C03", "namespace": "Vanguard.C03", "streams": ["e2e"],
         "partial": "that the model's whole response satisfies the protocol validator for every scenario is not a theorem yet",
@@ -71,7 +82,7 @@ CHECKS = {
     "C04": {
         "module": "Vanguard.Props.C04",
         "namespace": "Vanguard.C04",
-        "streams": ["codes", "percent"],
+        "streams": ["codes", "percent", "e2e"],
         "partial": "",
         "assumptions": [
             "JSON / protobuf / base64 encodings of error details are external (round-trip assumed, exercised by e2e stream)",
